@@ -70,6 +70,7 @@ type crashSpec struct {
 	Managed  bool // managed mode: every commit is a managed write batch of 3 entries with per-entry versions
 	WaitFlush    bool // after the last commit wait (up to 20 s) until at least one flush has been recorded
 	CompactEvery int // every k-th commit is followed by an explicit compaction (production doCompact) of L0, every 2k-th also of L1
+	Conc         int // > 1: that many goroutines commit concurrently (several requests per writer call); used for the sync-claims oracle only
 }
 
 type cwrite struct {
@@ -318,6 +319,49 @@ func crashChild(c *Ctx) error {
 		l.snap(seq, "KEYREGISTRY")
 	}
 	l.mu.Unlock()
+	if s.Conc > 1 {
+		// concurrent committers: doWrites hands several requests to one writeRequests call; half of
+		// the commits carry a value-log value, so calls whose LAST request has none are common
+		var next atomic.Int64
+		next.Store(int64(s.First) - 1)
+		var cwg sync.WaitGroup
+		for g := 0; g < s.Conc; g++ {
+			cwg.Add(1)
+			go func() {
+				defer cwg.Done()
+				for {
+					i := int(next.Add(1))
+					if i >= s.First+s.NCommits {
+						return
+					}
+					ws := crashCommit(&s, i)
+					l.mu.Lock()
+					l.line("ISSUE %d", i)
+					l.mu.Unlock()
+					cerr := db.Update(func(txn *badger.Txn) error {
+						for _, w := range ws {
+							if w.Val == "" {
+								continue
+							}
+							if e := txn.Set([]byte(w.Key), []byte(w.Val)); e != nil {
+								return e
+							}
+						}
+						return nil
+					})
+					l.mu.Lock()
+					if cerr == nil {
+						l.line("ACK %d", i)
+					} else {
+						l.line("COMMITERR %d %v", i, cerr)
+					}
+					l.mu.Unlock()
+				}
+			}()
+		}
+		cwg.Wait()
+		s.NCommits = 0 // the sequential loop below does nothing
+	}
 	for i := s.First; i < s.First+s.NCommits; i++ {
 		ws := crashCommit(&s, i)
 		l.mu.Lock()
@@ -2176,6 +2220,10 @@ func crashRunPower(c *Ctx, e *crashEnv, fixDir, fixZero bool) error {
 		// with value-log values and some without: every request of a call must be durable at its ack
 		{"sync-batch-compact", crashSpec{Sync: true, Batch: true, NCommits: 300, MemSize: 8 << 10, NumComp: 2, BigEvery: 3, BigSize: 300, DelEvery: 5, Snap: true}, false, false},
 		{"sync-compact", crashSpec{Sync: true, NCommits: 220, MemSize: 8 << 10, BigEvery: 4, BigSize: 300, CompactEvery: 45, Snap: true}, true, false},
+		// three concurrent committers (several requests per writer call, every second commit with a
+		// value-log value): judged by the sync-claims oracle only — every acknowledgement must be
+		// preceded by a real sync of every log file its request wrote (no images, no model cases)
+		{"sync-concurrent-claims", crashSpec{Sync: true, NCommits: 240, MemSize: 64 << 10, BigEvery: 2, BigSize: 300, Snap: true, Conc: 3}, false, false},
 	}
 	// ground truth: the system calls of the workload children (strace.go)
 	straceOK, straceVer := false, "disabled by VERIF_NO_STRACE"
@@ -2248,6 +2296,10 @@ func crashRunPower(c *Ctx, e *crashEnv, fixDir, fixZero bool) error {
 	// hook, the first acknowledgement after it, then random hooks
 	perWl := (c.N + len(wls) - 1) / len(wls)
 	for i, run := range runs {
+		if run.wl.spec.Conc > 1 {
+			info[run.wl.name] = crashJ{"events": len(run.evs), "claims_only": true}
+			continue
+		}
 		evs := run.evs
 		var all, rare []int
 		var prio [][2]int // (directory fsync that made a deletion durable, first acknowledgement after it)
